@@ -5,7 +5,7 @@
    These theorems are about the code WITH the fix of defect D3 (ParseIPNet refuses non-IPv4 nets). *)
 From Coq Require Import ZArith List Bool.
 From SX Require Import Base.Bytes Model.RangeIter Model.IPNet Model.Exclude Model.Targets Model.FileTargets Model.TargetWiring
-  Gen.GroupsTable Gen.TargetWiring
+  Model.ExcludeShape Gen.GroupsTable Gen.TargetWiring Gen.ExcludeShape
   Proofs.RangeIterProofs Proofs.IPNetProofs Proofs.StagesProofs Proofs.TargetsProofs Proofs.CoverageProofs Proofs.WiringProofs
   Proofs.ConfinementProofs Proofs.TargetsTable.
 Import ListNotations.
@@ -77,6 +77,12 @@ Theorem C02_excluded_meaning : forall nets a, addr_ok a ->
   (excluded nets a = true <-> exists n, In n nets /\ contains n a = true).
 Proof. exact excluded_spec. Qed.
 
+(* the tie of Model/Exclude.v to the source: the statement skeleton of parseExcludeFile extracted from the
+   current command/config.go (regenerated on every run) is exactly the one the model was written against -
+   per line: comment strip, trim, blank skip, ParseIPNet, Insert, and nothing else that touches the trie *)
+Theorem C02_exclude_shape : exclude_shape = expected_exclude_shape.
+Proof. reflexivity. Qed.
+
 (* an exclusion file is accepted only if every entry is an IPv4 host or block (blank and comment lines
    aside): the networks inserted are IPv4 nets, and one entry that is not refuses the whole file *)
 Theorem C02_exclude_file_ipv4 : forall cidr_of addr_of lines nets,
@@ -142,5 +148,6 @@ Print Assumptions C02_generator_exact.
 Print Assumptions C02_excluded_never_probed.
 Print Assumptions C02_exclusion_exact.
 Print Assumptions C02_excluded_meaning.
+Print Assumptions C02_exclude_shape.
 Print Assumptions C02_exclude_file_ipv4.
 Print Assumptions C02_all_commands_confined.
